@@ -661,6 +661,9 @@ const (
 	// as capAckWithoutSack, but the target is two hops away: the probe with TTL 1 is answered by a router's
 	// time-exceeded first, so the engine already holds a hop when the acknowledgement without SACK blocks arrives
 	capAckWithoutSackFar
+	// the target supports SACK and says so in every acknowledgement: each probe is answered by a duplicate ACK whose
+	// SACK block is that probe's own byte - with the run's initial sequence number two below the 2^32 wrap
+	capSackAnswers
 )
 
 var injectedCause = errors.New("injected non-capability failure")
@@ -710,6 +713,9 @@ func runTCPCase(t *testing.T, method string, capab int) (sx, sx) {
 		f := &wireFactory{faults: newFaultPlan()}
 		lo := [4]byte{127, 0, 0, 1}
 		cfg := drvCfg{local: lo[:], target: lo[:], dport: dport, initSeq: 0xfffffffe, initAck: 0x10203041, tsVal: 500, tsEcr: 77}
+		if capab == capSackAnswers {
+			cfg.initSeq = 0xffffffff // every probe's sequence number lies beyond the wrap
+		}
 		var once sync.Once
 		nHandles := 0
 		f.onNew = func(h *wireHandle) {
@@ -756,6 +762,22 @@ func runTCPCase(t *testing.T, method string, capab int) (sx, sx) {
 							h.src.inject(c.synack(true, 1, 0x12), time.Time{})
 						default:
 							h.src.inject(c.synack(true, 0, 0x12), time.Time{})
+						}
+						if capab == capSackAnswers {
+							h.snk.mu.Lock()
+							h.snk.onWrite = func(p outPkt) {
+								b := p.data
+								if len(b) < 40 || b[0]>>4 != 4 || b[9] != 6 || b[33] != 0x18 {
+									return
+								}
+								seq := binary.BigEndian.Uint32(b[24:28])
+								opt := []byte{1, 1, 5, 10, 0, 0, 0, 0, 0, 0, 0, 0}
+								binary.BigEndian.PutUint32(opt[4:], seq)
+								binary.BigEndian.PutUint32(opt[8:], seq+1)
+								seg := buildTCP4(tcpHdr{sport: uint16(dport), dport: uint16(lp), seq: cfg.initAck, ack: cfg.initSeq, flags: 0x10, win: 512, opts: opt}, nil, lo, lo)
+								h.src.inject(buildIP4(ip4Hdr{ttl: 60, proto: 6, src: lo, dst: lo}, seg), time.Time{})
+							}
+							h.snk.mu.Unlock()
 						}
 						if capab == capAckWithoutSackFar {
 							h.snk.mu.Lock()
@@ -810,8 +832,12 @@ func runTCPCase(t *testing.T, method string, capab int) (sx, sx) {
 		}()
 		if err == nil && trRun != nil {
 			for _, hp := range trRun.Hops {
-				if hp != nil && len(hp.IPAddress) > 0 {
-					foreignHops++
+				// only the routers that answered with the foreign-port quotes (10.9.0.x): genuine answers of some target
+				// capabilities (a router's time-exceeded, the target's SACK) are hops by right
+				if hp != nil {
+					if v4 := hp.IPAddress.To4(); v4 != nil && v4[0] == 10 && v4[1] == 9 && v4[2] == 0 {
+						foreignHops++
+					}
 				}
 			}
 		}
@@ -1117,7 +1143,7 @@ func labPar(e labEnv) {
 	}
 	for k := 0; k < reps; k++ {
 		for _, m := range []string{"syn", "sack", "prefer_sack"} {
-			for capab := capSack; capab <= capAckWithoutSackFar; capab++ {
+			for capab := capSack; capab <= capSackAnswers; capab++ {
 				in, out := runTCPCase(e.t, m, capab)
 				w.put(in, out)
 				tags[fmt.Sprintf("tcp_run:%s:cap%d", m, capab)]++
